@@ -354,6 +354,8 @@ class WLSim(object):
         self.synced = True
         self.fired0 = fs.errors_fired
         self.last_flat_info = None
+        self.early = None
+        self.fol_n, self.fol_S, self.fol_V = 0, 0.0, 0.0
 
     # --- oracles
     def kappa(self, s):
@@ -389,9 +391,11 @@ class WLSim(object):
     # more than one move-selection number.  A WL draw while a proposal is undecided is the acceptance draw;
     # any other WL draw is a move-selection draw.
     def on_move(self, kind, parent, child):
-        if self.prop is not None and not self.started and "proposal" not in self.pending_hook and self.hook_capable:
+        if self.early is not None:
+            self.early_was_selection()
+        if self.prop is not None and "proposal" not in self.pending_hook and self.hook_live():
             self.prop = None            # e.g. a shuffle used to pick the starting arrangement: not a proposal of the walk
-            self.ctx.probe("move_before_the_walk_ignored")
+            self.ctx.probe("move_that_was_not_a_proposal_ignored")
         if self.prop is not None:
             self.resolve_without_draw()
         if self.step is not None and not self.synced:
@@ -410,18 +414,51 @@ class WLSim(object):
             raise Discard("the trace hook of this tree reports other fields than the harness knows (%s: %s)" % (kind, sorted(fields)))
         self.hook_seen = True
         self.pending_hook[kind] = dict(fields)
+        if kind == "proposal" and not self.plan.get("no_hook") and "parent" in fields and "child" in fields:
+            # the record names the arrangement the step starts from and the one proposed: it defines the proposal
+            # (a move made through another method than the four wrapped ones is seen only here)
+            pq = (str(fields["parent"]), str(fields["child"]))
+            if self.prop is None or (self.prop["p"], self.prop["q"]) != pq:
+                if self.step is not None and not self.synced and self.prop is None:
+                    self.sync_after_step_keeping("proposal")
+                self.ctx.probe("proposal_taken_from_the_hook_record")
+                self.prop = {"kind": (self.prop or {}).get("kind", "other_move"), "p": pq[0], "q": pq[1], "ndraws": self.draws_before_move}
+                self.draws_before_move = 0
+            if self.early is not None:
+                # the acceptance number had been drawn before the probability was reported
+                e, self.early = self.early, None
+                self.ctx.probe("acceptance_number_drawn_before_the_proposal_record")
+                kind_, p, q, idx_new, inr, P = self.prepare()
+                self.decide(kind_, p, q, idx_new, inr, P, e["u"], "early_draw")
+                return
         if kind == "booked" and self.prop is not None:
             self.resolve_without_draw()
 
+    def hook_live(self):
+        return self.use_hook or (self.hook_capable and not self.started)
+
     def wl_random(self, who):
-        if self.prop is not None and "proposal" not in self.pending_hook and (self.use_hook or (self.hook_capable and not self.started)):
-            # with a live hook every proposal of the walk is announced before its acceptance draw: a move that is
-            # followed by a draw without that announcement was not a proposal (e.g. a shuffle that picks the start)
-            self.prop = None
-            self.ctx.probe("move_that_was_not_a_proposal_ignored")
+        if self.early is not None:
+            # a second WL draw with neither a hook record nor a move in between: the held draw was a selection
+            # draw, and the move before it was not a proposal of the walk
+            self.early_was_selection()
+        if self.prop is not None and "proposal" not in self.pending_hook and self.hook_live():
+            # With a live hook every proposal of the walk is announced by a "proposal" record.  A WL draw that
+            # follows a move before that record is either the acceptance number drawn early (the record follows) or
+            # a selection draw after a move that was no proposal (e.g. a shuffle picking the start; a move follows).
+            # The value is handed out now; what it was is settled by the next event.
+            u = min(max(self.rnd.random(), 0.0), ONE_MINUS)
+            self.early = {"u": u}
+            return u
         if self.prop is None:
             return self.draw_r()
         return self.draw_u()
+
+    def early_was_selection(self):
+        self.early = None
+        self.prop = None
+        self.draws_before_move += 1
+        self.ctx.probe("move_that_was_not_a_proposal_ignored")
 
     # --- r draw: start of a step
     def draw_r(self):
@@ -478,7 +515,7 @@ class WLSim(object):
             m.cur = p
             m.idx = self.bin_of(p, hp["idx_old"] if hp else None)
             kp = self.kappa(p)
-            if (kp > 1 + 1e-9 or kp < -1e-12) and m.in_range(m.idx) and (hp is None or hp["idx_old"] != m.idx):
+            if (kp > 1 + 1e-9 or kp < -1e-12) and (hp is None or hp["idx_old"] != m.idx):
                 raise Discard("the walk starts from a kappa outside [0,1], which has no bin in the partition, and the implementation does not read it as the top bin")
             if not m.in_range(m.idx):
                 self.ctx.probe("start_outside_range")
@@ -492,7 +529,8 @@ class WLSim(object):
         inr = m.in_range(idx_new)
         no_bin = False
         kq = self.kappa(q)
-        if (kq > 1 + 1e-9 or kq < -1e-12) and inr:
+        off_scale = kq > 1 + 1e-9 or kq < -1e-12
+        if off_scale and inr:
             # a kappa outside [0,1] (the delta-max heuristic underestimates for some compositions) has no bin in
             # the partition of [0,1]: an implementation may take the nearest (top) bin or treat the proposal as
             # outside every range; both readings keep the statement, so the implementation's reading is followed
@@ -503,7 +541,7 @@ class WLSim(object):
                 self.ctx.probe("kappa_above_one_read_as_outside")
         P = 0.0 if no_bin else m.accept_prob(idx_new)
         if hp is not None:
-            if hp["idx_old"] != m.idx or (hp["idx_new"] != idx_new and not no_bin):
+            if hp["idx_old"] != m.idx or (hp["idx_new"] != idx_new and not off_scale):
                 self.viol("wrong_bin", "bin", "implementation bins (old %d, new %d), nearest-centre bins of kappa(%s)=%r and kappa(%s)=%r are (%d, %d) with M=%d" % (
                     hp["idx_old"], hp["idx_new"], p, self.kappa(p), q, self.kappa(q), m.idx, idx_new, m.M))
             if not feq(hp["knew"], self.kappa(q), 1e-9) or not feq(hp["kold"], self.kappa(p), 1e-9):
@@ -523,16 +561,36 @@ class WLSim(object):
         kind, p, q, idx_new, inr, P = self.prepare()
         if 0.0 < P < 1.0:
             hb = self.pending_hook.get("booked") if self.use_hook else None
-            if hb is None or "cur" not in hb:
+            if hb is None or "cur" not in hb or self.prop.get("ndraws", 0) > 1 or not entropy.used():
+                # (numbers drawn from the tape ahead of the move cannot be told apart from selection draws, and the
+                # tape's selection values are not uniform: such runs stay undecided)
                 raise Discard("the step was decided without an acceptance draw although 0 < P < 1 (cannot be followed through the RNG seam)")
-            # the acceptance number did not pass the seam (drawn ahead of the move, or from another generator): the
-            # probability was checked against the rule; which way the coin fell is taken from the hook's record
+            # the acceptance number came from a generator outside the seam: the probability was checked against the
+            # rule; which way the coin fell is taken from the hook's record, and the frequencies are tested below
             self.ctx.probe("decision_followed_from_hook")
-            took = (hb["cur"] == q) if q != p else True
+            if q != p:
+                took = hb["cur"] == q
+                self.fol_n += 1
+                self.fol_S += (1.0 if took else 0.0) - P
+                self.fol_V += P * (1.0 - P)
+                self.check_followed()
+            else:
+                took = True
             self.decide(kind, p, q, idx_new, inr, P, P / 2 if took else (1 + P) / 2, "unattributed")
             return
         self.ctx.probe("step_decided_without_draw")
         self.decide(kind, p, q, idx_new, inr, P, 0.0 if P >= 1.0 else ONE_MINUS, "no_draw")
+
+    def check_followed(self):
+        """Decisions that were followed rather than predicted must still be draws with the probabilities the rule
+        gives.  Bernstein's inequality: for independent Bernoulli(P_i) decisions, |sum(took_i - P_i)| >= t has
+        probability at most 2 exp(-t^2 / (2 (V + t/3))), V = sum P_i (1 - P_i).  The alarm is raised only where that
+        bound is below 1e-12: a correct implementation meets it less than once in 10^12 runs."""
+        t = abs(self.fol_S)
+        if self.fol_n >= 20 and t * t / (2.0 * (self.fol_V + t / 3.0)) > 27.7:
+            self.viol("wrong_acceptance_frequency", "accept_freq", "over %d steps decided with numbers from outside the seam the proposals were accepted %s often than "
+                      "min(1, exp(g_old - g_new)) allows: sum(accepted - P) = %.1f with variance %.1f (Bernstein bound < 1e-12)" % (
+                          self.fol_n, "more" if self.fol_S > 0 else "less", self.fol_S, self.fol_V))
 
     # --- acceptance draw: choose u, then decide
     def draw_u(self):
@@ -661,6 +719,12 @@ class WLSim(object):
         self.check_disk(strict=False, allow_extra=self.prop is not None)
         self.step = None if final else st
 
+    def sync_after_step_keeping(self, kind):
+        keep = self.pending_hook.get(kind)
+        self.sync_after_step()
+        if keep is not None:
+            self.pending_hook[kind] = keep
+
     def observed_glog_growth(self):
         rows = self.read_new_rows("glog.txt", peek=True)
         return len(rows) > 0
@@ -771,6 +835,11 @@ class WLSim(object):
     def finish_normal(self, ret):
         import numpy as np
         m = self.model
+        if self.early is not None:
+            self.early_was_selection()
+        if self.prop is not None and "proposal" not in self.pending_hook and self.hook_live():
+            self.prop = None                 # a move that was never announced as a proposal (e.g. one that picked the start of a run without steps)
+            self.ctx.probe("move_that_was_not_a_proposal_ignored")
         if self.prop is not None:
             self.resolve_without_draw()
         self.sync_after_step(final=True)
